@@ -44,9 +44,9 @@ ASSUMPTIONS = [
     'Part A bounds quick|thorough: block ranges {0..3}^(1..3) | +{0..3}^4 and {0..4}^(1..3); word groups '
     'n<=4,k<=3 | n<=5,k<=4; bipartite graphs <=3x3 | +3x4,4x3; simple graphs <=5 | <=6 vertices; '
     'digraphs with loops <=3 vertices (+ loop-free 4 vertices thorough) x sortby pred/succ; '
-    'mappings n,m<=4; binary mappings n<=3, m<=9 plus n=1, m in {2^e-1,2^e,2^e+1 : e<=34 | e<=62}',
-    'Part B bounds: depth 4 (alphabet of 14 operations) quick | depth 5 (17 operations) thorough, '
-    'formula classes CNF and OPB',
+    'mappings n,m<=4; binary mappings n<=3, m<=9 plus n=1, m in {2^e-1,2^e,2^e+1 : e<=10 | e<=14}',
+    'Part B bounds: all histories of <= 4 (quick) | <= 5 (thorough) operations over an alphabet of 17 '
+    'operations, formula classes CNF and OPB',
     'index coordinates are ints or None; non-integer coordinates are out of scope',
     'the reference (ref/c11_groups_ref.py) is the documented enumeration order and label convention; '
     'for the word groups (combinations, ...) wildcard patterns may be refused with ValueError '
@@ -232,8 +232,8 @@ def name_checks(F, M, V, cls, stats=None, latex=True, fam='history'):
         shifted = M.singleton_after_anonymous()
         key = 'all_variable_labels:singleton-after-anonymous:misaligned' if shifted \
             else 'all_variable_labels:misaligned'
-        V.bad(key, 'variable %d is reported as %r but was created as %r; reported=%r reference=%r'
-              % (pos, got[pos - 1], refnames[pos - 1], got[:14],
+        V.bad(key, 'variable %d is reported as %r, the name of variable %d is %r; reported=%r reference=%r'
+              % (pos, got[pos - 1], pos, refnames[pos - 1], got[:14],
                  ['<unlabelled>' if r is ANY else r for r in refnames[:14]]))
     # a variable created without a label must still have a usable name
     nonstr = [i for i, g in enumerate(got, start=1) if not (isinstance(g, str) and g)]
@@ -400,6 +400,10 @@ def group_checks(g, kind, shape, first, label, V, stats=None, patterns=True):
     names = None
     try:
         names = [g.label(*i) for i in idxs]
+        if kind in WORD_KINDS and shape[1] == 0:
+            # k=0: the empty pattern is both "everything" and the only index
+            names = [(lambda y: y[0] if len(y) == 1 else y)(list(x)) if not isinstance(x, str) else x
+                     for x in names]
         if kind == 'variable':
             all_names = list(names)
         else:
@@ -628,7 +632,8 @@ def cases_A(tier, seed):
     for n in range(4):
         for m in range(10):
             shapes.append(('binary_mapping', [n, m], False))
-    emax = 62 if thorough else 34
+    # (the group keeps a table of 2^k sign patterns: m stays small)
+    emax = 14 if thorough else 10
     for e in range(4, emax + 1):
         for m in (2 ** e - 1, 2 ** e, 2 ** e + 1):
             shapes.append(('binary_mapping', [1, m], False))
@@ -691,12 +696,11 @@ def alphabet(tier):
         ('clause_skip', ('anon', 'clause', 2)),       # add_clause([-(numvar+2)])
         ('raise_same', ('anon', 'raise', 0)),         # update_variable_number(numvar): no-op
     ]
-    if tier == 'thorough':
-        ops += [
-            ('dig_succ', ('group', 'digraph_edges', DIG)),
-            ('words22', ('group', 'words', [2, 2])),
-            ('map02', ('group', 'mapping', [0, 2])),
-        ]
+    ops += [
+        ('dig_succ', ('group', 'digraph_edges', DIG)),
+        ('words22', ('group', 'words', [2, 2])),
+        ('map02', ('group', 'mapping', [0, 2])),      # an empty group that is not a block
+    ]
     return ops
 
 
@@ -765,7 +769,7 @@ def real_key(F):
     out = []
     for g in gs:
         ids = getattr(g, 'ids', None)
-        out.append((type(g).__name__, getattr(ids, 'start', None), len(g)))
+        out.append((type(g).__name__, getattr(ids, 'start', None), len(g), getattr(g, 'labelfmt', None)))
     return (F.number_of_variables(), tuple(out))
 
 
@@ -782,7 +786,7 @@ def check_state(cls, hist, opsd, M, labels, stats=None):
         group_checks(g, kind, shape, first, label, V, None, patterns=False)
     key = real_key(F)
     mkey = (M.numvar, tuple((first, size) for (_, _, first, size, _) in M.groups))
-    if (key[0], tuple((a, b) for (_, a, b) in key[1])) != mkey and not V.out:
+    if (key[0], tuple((a, b) for (_, a, b, _) in key[1])) != mkey and not V.out:
         V.bad('history:ids', 'manager state %r, the operations should give %r' % (key, mkey))
     name_checks(F, M, V, cls, stats, latex=True)
     return V.out, key
@@ -865,17 +869,29 @@ def roots_B(tier):
 
 
 def shards(tier, seed):
-    cs = cases_A(tier, seed)
-    kA = 40 if tier == 'thorough' else 24
-    out = [('A%03d' % i, 'run_A', chunk) for i, chunk in enumerate(scope.stripe(cs, kA))]
+    # the history shards are the expensive ones: they go first
+    out = []
     roots = roots_B(tier)
-    kB = 24 if tier == 'thorough' else 12
+    kB = 19 if tier == 'thorough' else 12
+    for cls in ('CNF', 'OPB'):
+        for i, chunk in enumerate(scope.stripe(roots, kB)):
+            out.append(('B-%s-%02d' % (cls, i), 'explore', {'cls': cls, 'tier': tier, 'roots': chunk}))
     for cls in ('CNF', 'OPB'):
         out.append(('B-%s-top' % cls, 'explore',
                     {'cls': cls, 'tier': tier, 'roots': [[]], 'upto': ROOT_DEPTH, 'check_roots': True}))
-        for i, chunk in enumerate(scope.stripe(roots, kB)):
-            out.append(('B-%s-%02d' % (cls, i), 'explore', {'cls': cls, 'tier': tier, 'roots': chunk}))
+    cs = cases_A(tier, seed)
+    kA = 24
+    out += [('A%03d' % i, 'run_A', chunk) for i, chunk in enumerate(scope.stripe(cs, kA))]
     return out
+
+
+def coverage_extra(tier, stats, outcomes):
+    return {'max_depth': depth_of(tier),
+            'fixpoint_reached': False,      # the state space is unbounded: explored to max_depth
+            'alphabet': [o for o, _ in alphabet(tier)],
+            'states_per_depth': {str(d): int(stats.get('states_depth_%d' % d, 0))
+                                 for d in range(depth_of(tier) + 1)},
+            'formula_classes': ['CNF', 'OPB']}
 
 
 # ---------------------------------------------------------------- replay --
@@ -884,8 +900,7 @@ def replay(case):
         vs, _ = check_A(case, None)
         return vs
     hist = case['history']
-    # the alphabet of the thorough tier contains the one of the quick tier
-    opsd = dict(alphabet('thorough'))
+    opsd = dict(alphabet('quick'))
     M, canon, labels = model_of(hist, opsd)
     vs, _ = check_state(case['cls'], hist, opsd, M, labels, None)
     return vs
